@@ -135,6 +135,15 @@ def shutdown():
     if cls is not None:
         loop, th = cls._loop, cls._loop_thread
         if loop is not None and th is not None and th.is_alive():
+            async def _drain():
+                ts = [t for t in asyncio.all_tasks() if t is not asyncio.current_task()]
+                for t in ts:
+                    t.cancel()
+                await asyncio.gather(*ts, return_exceptions=True)
+            try:
+                asyncio.run_coroutine_threadsafe(_drain(), loop).result(5)
+            except Exception:
+                pass
             loop.call_soon_threadsafe(loop.stop)
             th.join(5)
             if not th.is_alive():
